@@ -73,6 +73,7 @@ class HResult:
         self.time = None
         self.raw_tail = ""
         self.playback = []     # (check description, [bytes,...])
+        self.cached = False
 
     def failed(self):
         return [c for c in self.checks if c[1] == "FAILURE"]
@@ -140,17 +141,17 @@ def parse_output(text):
     return res
 
 
-def run_partition(idx, names, extra, log):
+def run_partition(idx, names, extra, log, timeout_s):
     """one sequential `cargo kani` process over `names` with its own target dir"""
     td = os.path.join(TD, "w%02d" % idx)
     cmd = ["cargo", "kani", "--lib", "--target-dir", td, "--exact"]
     for n in names:
         cmd += ["--harness", "harnesses::" + n]
-    cmd += KANI_FLAGS + ["--harness-timeout", HARNESS_TIMEOUT + "s"] + extra
+    cmd += KANI_FLAGS + ["--harness-timeout", "%ds" % timeout_s] + extra
     t = time.time()
     try:
         p = subprocess.run(cmd, cwd=CRATE, env=common.ENV, stdout=subprocess.PIPE, stderr=subprocess.PIPE, text=True,
-                           timeout=int(HARNESS_TIMEOUT) * len(names) + 1200, preexec_fn=_limits)
+                           timeout=timeout_s * len(names) + 1200, preexec_fn=_limits)
         out, err = p.stdout, p.stderr
     except subprocess.TimeoutExpired as e:
         out = (e.stdout or b"").decode() if isinstance(e.stdout, bytes) else (e.stdout or "")
@@ -173,8 +174,91 @@ def weight(h):
     return 1
 
 
+# ---- content-keyed result cache ------------------------------------------------------------
+# A harness result depends only on: the dora-asm sources, the generated harness crate, the Kani
+# flags and the Kani version.  Conclusive per-harness results are stored under the SHA-256 of
+# exactly that content; a later run with identical content reuses them (nothing is ever reused
+# across different content; VERIF_C08_NOCACHE=1 disables the cache).
+CACHE = os.path.join(common.WORK, "kani_arm64" + TAG + "_cache")
+
+
+def content_key(extra):
+    import hashlib
+    h = hashlib.sha256()
+    roots = [os.path.join(gen_arm64.asm_dir(), "src"), os.path.join(CRATE, "src")]
+    files = [os.path.join(gen_arm64.asm_dir(), "Cargo.toml"), os.path.join(CRATE, "Cargo.toml"), os.path.join(CRATE, "Cargo.lock")]
+    for r in roots:
+        for dp, _, fs in sorted(os.walk(r)):
+            files += [os.path.join(dp, f) for f in sorted(fs)]
+    for f in files:
+        h.update(f.encode())
+        try:
+            h.update(open(f, "rb").read())
+        except OSError:
+            h.update(b"<missing>")
+    h.update(" ".join(KANI_FLAGS + list(extra)).encode())
+    try:
+        h.update(subprocess.run(["cargo", "kani", "--version"], stdout=subprocess.PIPE, stderr=subprocess.STDOUT, env=common.ENV, timeout=120).stdout)
+    except Exception:
+        pass
+    return h.hexdigest()[:24]
+
+
+def cache_load(key, name):
+    if os.environ.get("VERIF_C08_NOCACHE"):
+        return None
+    p = os.path.join(CACHE, key, name + ".json")
+    if not os.path.exists(p):
+        return None
+    try:
+        d = json.load(open(p))
+    except ValueError:
+        return None
+    r = HResult(name)
+    r.checks = [tuple(c) for c in d["checks"]]
+    r.verdict, r.time, r.raw_tail = d["verdict"], d["time"], d.get("raw_tail", "")
+    r.playback = [(a, b) for a, b in d["playback"]]
+    r.cached = True
+    return r
+
+
+def cache_store(key, name, r):
+    if r.verdict is None or r.time is None:
+        return  # timeouts / crashes are never cached
+    os.makedirs(os.path.join(CACHE, key), exist_ok=True)
+    with open(os.path.join(CACHE, key, name + ".json"), "w") as f:
+        json.dump({"checks": r.checks, "verdict": r.verdict, "time": r.time, "raw_tail": r.raw_tail, "playback": r.playback}, f)
+
+
 def run_kani(hs, log, extra=()):
-    """hs: harness dicts from the generator.  Returns {name: HResult}, wall seconds."""
+    """hs: harness dicts from the generator.  Returns {name: HResult}, wall seconds.
+    Harnesses without a verdict (timeout under load) are retried once, alone, with 4x the timeout."""
+    key = content_key(extra)
+    cached = {}
+    for h in hs:
+        r = cache_load(key, h["name"])
+        if r is not None:
+            cached[h["name"]] = r
+    todo = [h for h in hs if h["name"] not in cached]
+    if cached:
+        common.log("[C08] %d of %d harness results reused from the content-keyed cache %s" % (len(cached), len(hs), key))
+    res, wall = ({}, 0.0)
+    if todo:
+        res, wall = run_kani_uncached(todo, log, extra, int(HARNESS_TIMEOUT))
+        missing = [h for h in todo if res.get(h["name"]) is None or res[h["name"]].verdict is None or res[h["name"]].time is None]
+        if missing and len(missing) <= 40:
+            common.log("[C08] retrying %d harnesses without verdict with a 4x timeout" % len(missing))
+            res2, wall2 = run_kani_uncached(missing, log + "-retry", extra, 4 * int(HARNESS_TIMEOUT))
+            res.update(res2)
+            wall += wall2
+        for h in todo:
+            if h["name"] in res:
+                cache_store(key, h["name"], res[h["name"]])
+    res.update(cached)
+    return res, wall
+
+
+def run_kani_uncached(hs, log, extra, timeout_s):
     os.makedirs(TD, exist_ok=True)
     n = min(jobs(), max(1, len(hs)))
     parts = [[] for _ in range(n)]
@@ -187,7 +271,7 @@ def run_kani(hs, log, extra=()):
     results = {}
     errs = []
     with ThreadPoolExecutor(max_workers=n) as ex:
-        futs = [ex.submit(run_partition, i, p, list(extra), log) for i, p in enumerate(parts) if p]
+        futs = [ex.submit(run_partition, i, p, list(extra), log, timeout_s) for i, p in enumerate(parts) if p]
         for f in futs:
             r, _, err = f.result()
             results.update(r)
@@ -439,6 +523,7 @@ def main(tier):
             "queries": sum(len(r.checks) for r in results.values()),
             "solver_time_s": {"sum": round(sum(times), 1), "max": round(times[-1], 1) if times else 0,
                               "median": round(times[len(times) // 2], 1) if times else 0, "kani_wall": round(kani_wall, 1)},
+            "results_reused_from_content_keyed_cache": sum(1 for h in hs if h["name"] in results and results[h["name"]].cached),
             "vacuity_witnesses": sum(1 for h in hs if h["name"] in results and results[h["name"]].cover_ok()),
             "failing_harnesses": [{"harness": h["name"], "why": verdicts[h["name"]][1]} for h in failing],
             "inconclusive_harnesses": [{"harness": n, "why": w} for n, w in inconclusive],
